@@ -25,6 +25,7 @@ CONSTANTS Fork,        \* index of the hardfork, numbered like revm's SpecId (FR
           Contracts,   \* addresses whose code is built in the setup phase
           World0,      \* initial accounts: [BaseAddr -> [ex, bal, nonce, code, stor]]
           Sender, Coinbase,
+          Coinbases,   \* block beneficiaries a transaction's block may name (Coinbase is the default one)
           MaxSnips, MaxTx, MaxCreates,
           SnipKinds,   \* which snippet families the setup may use
           TxGas,       \* gas limits a transaction may use
@@ -32,6 +33,7 @@ CONSTANTS Fork,        \* index of the hardfork, numbered like revm's SpecId (FR
           BaseFee, GasPrices,
           SetupPlan,   \* <<>> = free setup; else a sequence of [c |-> contract, kinds |-> families]: step i
                        \* appends one snippet of those families to that contract (exhaustive product)
+          Rejections,  \* TRUE: rejected transactions may be interleaved
           TxVariety,   \* FALSE: transactions carry no value, no data, no access list
           StepBound    \* safety bound on interpreter steps per transaction
 
@@ -199,6 +201,9 @@ NewFrame(kind, code, gas, static, self, caller, value, codeaddr, input, retOff, 
      retOff |-> retOff, retLen |-> retLen, rdata |-> <<>>, snap |-> snap, refund |-> 0, created |-> created,
      dests |-> Dests(code, 0)]
 
+RECURSIVE SumBal(_, _)
+SumBal(w, S) == IF S = {} THEN 0 ELSE LET a == CHOOSE a \in S : TRUE IN w[a].bal + SumBal(w, S \ {a})
+
 (* ---- end of a frame: `status` in {"ok","revert","halt"}; out = return data; gasLeft returned to the parent *)
 FinishTx(mm, status, out, gasLeft, refund) ==
     LET tx == mm.tx
@@ -212,8 +217,8 @@ FinishTx(mm, status, out, gasLeft, refund) ==
         price == EffPrice(tx)
         tip == IF Has(LONDON) THEN price - BaseFee ELSE price
         w1 == [mm.world EXCEPT ![Sender].bal = @ + (tx.gas - used) * price]
-        w2 == [w1 EXCEPT ![Coinbase].bal = @ + used * tip, ![Coinbase].ex = TRUE]
-        touched == mm.touched \cup {Coinbase}
+        w2 == [w1 EXCEPT ![tx.cb].bal = @ + used * tip, ![tx.cb].ex = TRUE]
+        touched == mm.touched \cup {tx.cb}
         \* self-destructed accounts disappear; from Spurious Dragon touched empty accounts too
         w3 == [a \in AddrU |-> IF a \in mm.dest THEN Blank
                                ELSE IF Has(SPURIOUS) /\ a \in touched /\ EmptyAcct(w2[a]) THEN Blank
@@ -222,7 +227,11 @@ FinishTx(mm, status, out, gasLeft, refund) ==
                    out |-> out, logs |-> IF status = "ok" THEN mm.logs ELSE <<>>,
                    created |-> IF tx.to = 0 /\ status = "ok" THEN mm.txcreated ELSE 0, events |-> mm.events]
     IN [mm EXCEPT !.world = w3, !.frames = <<>>, !.res = Append(@, result), !.ph = "tx", !.events = <<>>,
-                  !.burnt = @ + (IF Has(LONDON) THEN used * BaseFee ELSE 0) + tx.blobs * BLOBGAS]
+                  \* burnt: the base fee, the blob fee, and whatever balance a self-destructed account still
+                  \* holds when it is deleted (ether sent to it after its SELFDESTRUCT in the same
+                  \* transaction is lost: consensus behaviour, the same mechanism as self-destruct to self)
+                  !.burnt = @ + (IF Has(LONDON) THEN used * BaseFee ELSE 0) + tx.blobs * BLOBGAS
+                              + SumBal(w2, mm.dest)]
 
 \* what the parent sees when a child call frame ends
 AfterCall(mm, child, status, out, gasLeft, refund) ==
@@ -456,7 +465,7 @@ Step(mm) ==
                  IF f.gas < c THEN Halt(mm)
                  ELSE IF ~(~w[s0].ex \/ EmptyAcct(w[s0])) THEN Cut(mm)
                  ELSE Go([mm EXCEPT !.accA = @ \cup {s0}], 1, <<0>>, c, f)
-      [] op = 65 -> Simple(0, <<Coinbase>>, 2)                                                   \* COINBASE
+      [] op = 65 -> Simple(0, <<mm.tx.cb>>, 2)                                                   \* COINBASE
       [] op = 66 -> Simple(0, <<BlockTime>>, 2)                                                  \* TIMESTAMP
       [] op = 67 -> Simple(0, <<BlockNumber>>, 2)                                                \* NUMBER
       [] op = 69 -> Simple(0, <<BlockGasLimit>>, 2)                                              \* GASLIMIT
@@ -672,7 +681,7 @@ StartTx(mm, tx) ==
     LET w0 == [mm.world EXCEPT ![Sender].bal = @ - tx.gas * EffPrice(tx) - tx.blobs * BLOBGAS,
                                ![Sender].nonce = IF tx.to # 0 THEN @ + 1 ELSE @]
         acc0 == {Sender} \cup (IF tx.to # 0 THEN {tx.to} ELSE {}) \cup Precompiles
-                \cup (IF Has(SHANGHAI) THEN {Coinbase} ELSE {}) \cup AlAddrs(tx)
+                \cup (IF Has(SHANGHAI) THEN {tx.cb} ELSE {}) \cup AlAddrs(tx)
         au == ApplyAuths(w0, acc0, 0, tx.auths)
         w1 == au[1]
         gas == tx.gas - Intrinsic(tx)
@@ -768,15 +777,19 @@ SnipsOf(K) ==
     \cup (IF "rev" \in K THEN {<<0>>, P(0) \o P(0) \o <<253>>, <<254>>} ELSE {})
     \* cold/warm probes: one access instruction on one address or slot, result stored
     \cup (IF "probe" \in K
-          THEN {P(a) \o <<x, 80>> : a \in {171, 172, Coinbase}, x \in {49, 59}}
+          THEN {P(a) \o <<x, 80>> : a \in {171, 172, 173} \cup Coinbases, x \in {49, 59}}
                \cup {P(k) \o <<84, 80>> : k \in {0, 1}} \cup {P(2) \o P(k) \o <<85>> : k \in {0, 1}}
-               \cup {P(0) \o P(0) \o P(0) \o P(0) \o P(0) \o P(a) \o P(0) \o <<241, 80>> : a \in {171, 172, Coinbase}}
+               \cup {P(0) \o P(0) \o P(0) \o P(0) \o P(0) \o P(a) \o P(0) \o <<241, 80>> : a \in {171, 172} \cup Coinbases}
           ELSE {})
     \cup (IF "sfwd" \in K THEN {P(0) \o P(0) \o P(0) \o P(0) \o P(194) \o P(200000) \o <<250, 80>>} ELSE {})
     \cup (IF "fwd2" \in K
           THEN {P(0) \o P(0) \o P(0) \o P(0) \o (IF op \in {241, 242} THEN P(0) ELSE <<>>) \o P(195) \o P(100000) \o <<op, 80>> :
                   op \in {241, 242, 244, 250}}
           ELSE {})
+    \* a callee that self-destructs to the EOA when called without calldata and just accepts value otherwise
+    \cup (IF "sdcond" \in K THEN {<<54, 96, 7, 87, 96, 171, 255, 91, 0>>} ELSE {})
+    \cup (IF "call194v" \in K THEN {P(0) \o P(0) \o P(4) \o P(0) \o P(1) \o P(194) \o P(60000) \o <<241, 80>>} ELSE {})
+    \cup (IF "call195" \in K THEN {P(0) \o P(0) \o P(0) \o P(0) \o P(0) \o P(195) \o P(200000) \o <<241, 80>>} ELSE {})
     \cup (IF "call194" \in K THEN {P(0) \o P(0) \o P(0) \o P(0) \o P(0) \o P(194) \o P(60000) \o <<241, 80>>} ELSE {})
     \cup (IF "rdata" \in K
           THEN {<<61>> \o P(2) \o <<85>>, P(1) \o P(0) \o P(0) \o <<62>>, P(33) \o P(0) \o P(0) \o <<62>>} ELSE {})
@@ -802,7 +815,7 @@ SnipsOf(K) ==
 W0 == [a \in AddrU |-> IF a \in DOMAIN World0 THEN World0[a] ELSE Blank]
 Init ==
     m = [ph |-> "setup", nsnip |-> 0, world |-> W0, world0 |-> W0, orig |-> W0, created |-> <<>>,
-         txs |-> <<>>, res |-> <<>>, tx |-> [to |-> 0, value |-> 0, gas |-> 0, price |-> 0, data |-> <<>>, al |-> <<>>, prio |-> -1, blobs |-> 0, auths |-> <<>>],
+         txs |-> <<>>, res |-> <<>>, tx |-> [to |-> 0, value |-> 0, gas |-> 0, price |-> 0, data |-> <<>>, al |-> <<>>, prio |-> -1, blobs |-> 0, auths |-> <<>>, cb |-> Coinbase, from |-> Sender],
          authref |-> 0,
          accA |-> {}, accS |-> {}, tst |-> [a \in AddrU |-> [k \in Slots |-> 0]], logs |-> <<>>, dest |-> {},
          touched |-> {}, ctx |-> {}, frames |-> <<>>, events |-> <<>>, txcreated |-> 0, cut |-> FALSE, steps |-> 0,
@@ -835,11 +848,22 @@ AccessLists == {<<>>} \cup (IF Has(BERLIN) THEN {<<[addr |-> c, keys |-> <<0>>]>
 ChooseTx == m.ph = "tx" /\ Len(m.res) < MaxTx /\
     \E to \in TxTargets, value \in (IF TxVariety THEN {0, 1} ELSE {0}), gas \in TxGas, price \in GasPrices,
        al \in (IF TxVariety THEN AccessLists ELSE {<<>>}), prio \in (IF TxVariety /\ Has(LONDON) THEN {-1, 0, 2} ELSE {-1}),
-       blobs \in (IF TxVariety /\ Has(CANCUN) THEN {0, 2} ELSE {0}), auths \in (IF TxVariety /\ Has(PRAGUE) THEN AuthLists ELSE {<<>>}) :
+       blobs \in (IF TxVariety /\ Has(CANCUN) THEN {0, 2} ELSE {0}), auths \in (IF TxVariety /\ Has(PRAGUE) THEN AuthLists ELSE {<<>>}),
+       cb \in Coinbases :
       \E data \in (IF to = 0 THEN TxInit ELSE IF TxVariety THEN TxData ELSE {<<>>}) :
         LET tx == [to |-> to, value |-> value, gas |-> gas, price |-> price, data |-> data, al |-> al, prio |-> prio,
-                   blobs |-> blobs, auths |-> auths] IN
+                   blobs |-> blobs, auths |-> auths, cb |-> cb, from |-> Sender] IN
         ValidTx(m, tx) /\ m' = StartTx(m, tx)
+
+\* A transaction that validation rejects (its sender cannot pay gas limit * price): no effect at all,
+\* whatever the sender and however often it is submitted (C02, C31).  Senders: a poor EOA, an empty account.
+RejectedTx == m.ph = "tx" /\ Len(m.res) < MaxTx /\ Rejections /\ \E from \in {171, 173} \cap BaseAddr, to \in TxTargets \ {0} :
+    LET tx == [to |-> to, value |-> 0, gas |-> 100000, price |-> 10, data |-> <<>>, al |-> <<>>, prio |-> -1,
+               blobs |-> 0, auths |-> <<>>, cb |-> Coinbase, from |-> from] IN
+    /\ m.world[from].bal < 100000 * 10 /\ m.world[from].code = <<>>
+    /\ m' = [m EXCEPT !.txs = Append(@, tx),
+                      !.res = Append(@, [status |-> "invalid", gas_used |-> 0, refunded |-> 0, out |-> <<>>, logs |-> <<>>,
+                                         created |-> 0, events |-> <<>>])]
 
 Run == m.ph = "run" /\ m' = (IF m.steps >= StepBound THEN Cut(m) ELSE Step([m EXCEPT !.steps = @ + 1]))
 
@@ -848,14 +872,12 @@ Emit == PrintT("REPLAY " \o ToJson([fork |-> Fork, world0 |-> m.world0, txs |-> 
                                       sender |-> Sender, coinbase |-> Coinbase]))
 Finish == m.ph = "tx" /\ Len(m.res) >= 1 /\ ~m.cut /\ m' = [m EXCEPT !.ph = "done"] /\ Emit
 
-Next == PickKind \/ AddSnippet \/ PlanStep \/ EndSetup \/ ChooseTx \/ Run \/ Finish
+Next == PickKind \/ AddSnippet \/ PlanStep \/ EndSetup \/ ChooseTx \/ RejectedTx \/ Run \/ Finish
 Spec == Init /\ [][Next]_vars
 View == m
 
 -----------------------------------------------------------------------------
 (* ---------------------------------------------------------------- properties of the specification *)
-RECURSIVE SumBal(_, _)
-SumBal(w, S) == IF S = {} THEN 0 ELSE LET a == CHOOSE a \in S : TRUE IN w[a].bal + SumBal(w, S \ {a})
 
 \* C08: between transactions, ether is conserved up to what was burnt (base fee, self-destruct to self)
 Conservation == (m.ph \in {"tx", "done"} /\ ~m.cut) => SumBal(m.world, AddrU) + m.burnt = SumBal(W0, AddrU)
@@ -864,6 +886,8 @@ DepthBounded == Len(m.frames) <= 1025
 \* C09: gas accounting of finished transactions
 GasRules == \A i \in 1..Len(m.res) :
     LET r == m.res[i]  t == m.txs[i] IN
+    IF r.status = "invalid" THEN r.gas_used = 0
+    ELSE
     \* intrinsic gas is a lower bound of what is spent before the refund (the refund itself may
     \* take the reported figure below it, as on mainnet); the EIP-7623 floor binds the final figure
     /\ r.gas_used <= t.gas /\ r.gas_used + r.refunded >= Intrinsic(t) /\ r.gas_used >= FloorGas(t)
